@@ -44,6 +44,15 @@ def good_messages(rng: random.Random) -> list[bytes]:
                    app=4))
     out.append(msg(280, 0x90, [oh, orr]))
     out.append(msg(272, 0x60, [gen.rfc_wire(263, 0, 0x40, b"s;1;4"), gen.rfc_wire(268, 0, 0x40, (3002).to_bytes(4, "big")), oh, orr], app=4))
+    # AVPs of a vendor nobody knows; typed Grouped AVPs holding members their definition does not name (a non-empty
+    # Failed-AVP in an error answer, an extra member in Vendor-Specific-Application-Id of a CER)
+    out.append(msg(280, 0x80, [oh, orr, gen.rfc_wire(4242, 55555, 0xC0, b"\x00\x00\x00\x07")]))
+    out.append(msg(280, 0x20, [gen.rfc_wire(268, 0, 0x40, (5005).to_bytes(4, "big")), oh, orr,
+                               gen.rfc_wire(279, 0, 0x40, gen.rfc_wire(263, 0, 0x40, b"s;9") + gen.rfc_wire(4242, 55555, 0x80, b"x"))]))
+    out.append(msg(257, 0x80, [oh, orr, gen.rfc_wire(257, 0, 0x40, b"\x00\x01\x0a\x00\x00\x01"),
+                               gen.rfc_wire(266, 0, 0x40, (0).to_bytes(4, "big")), gen.rfc_wire(269, 0, 0x00, b"prod"),
+                               gen.rfc_wire(260, 0, 0x40, gen.rfc_wire(266, 0, 0x40, (10415).to_bytes(4, "big")) +
+                                            gen.rfc_wire(258, 0, 0x40, (4).to_bytes(4, "big")) + gen.rfc_wire(1, 0, 0x40, b"extra"))]))
     out.append(msg(999, 0x80, []))                                          # bare 20-byte header
     out.append(msg(8388620, 0x80, [gen.rfc_wire(263, 0, 0x40, b"x" * 100)], app=16777217))
     out.append(msg(271, 0x80, [gen.rfc_wire(263, 0, 0x40, b"acct;1"), oh, orr,
